@@ -986,6 +986,13 @@ class Sim:
                     st, _ = call(lambda: other[b][c].__setitem__(cn, col))
                     if st == "exc":
                         continue
+                    if self.flavour == "bin":
+                        # a freshly built binary column differs from a stored one in its (not yet learnt) encoding
+                        # parameters already, which would decide the comparison before the masks are looked at: send
+                        # the modified store through its durable form once, like the live one
+                        st, other2 = call(self.durable_copy, other)
+                        if st == "ok":
+                            other = other2
                     done = True
                     for side, fn in (("left", lambda: f == other), ("right", lambda: other == f)):
                         st, v = call(fn)
